@@ -89,11 +89,19 @@ def run_fixture(prop, mod, fx, repo, slot):
             return {"name": fx["name"], "status": "skipped", "detail": "patch does not apply to this tree"}
         if not apply_edits(d, fx.get("edits", [])):
             return {"name": fx["name"], "status": "skipped", "detail": "edit does not apply to this tree"}
-        try:
-            fd, meta = X.extract(d, "all", target_tag=ensure_target(slot))
-        except X.BuildFailed as e:
-            return {"name": fx["name"], "status": "nobuild", "detail": e.log[-600:]}
-        F = Facts(fd, meta)
+        F = None
+        for attempt in range(4):
+            try:
+                fd, meta = X.extract(d, "all", target_tag=ensure_target(slot))
+            except X.BuildFailed as e:
+                return {"name": fx["name"], "status": "nobuild", "detail": e.log[-600:]}
+            try:
+                F = Facts(fd, meta)
+                break
+            except FileNotFoundError:
+                # another check running in parallel carries the same patch and has just dropped the shared cache entry: extract again
+                if attempt == 3:
+                    raise
         normalise.normalise(F)
         sub = Report(prop, "thorough")
         mod.run(F, sub)
